@@ -50,7 +50,7 @@ class C04(CheckBase):
     assumptions = ['wire elements are parsed with the library\'s container classes before they are canonicalised '
                    '(serialiser/parser round trip itself is C05, not claimed)']
     expected_probes = ['reports_checked', 'multi_writer_runs', 'periodic_reports', 'description_reports',
-                       'multi_mds_parts']
+                       'multi_mds_parts', 'late_subscribers']
     max_steps = 6_000_000
 
     def budget(self, tier):
@@ -76,7 +76,14 @@ class C04(CheckBase):
             k = rng.randint(3, len(all_actions))
             subs.append({'actions': sorted(rng.sample(all_actions, k)) if i else all_actions,
                          'stall': rng.choice([0, 0, 0, 0.02, 0.3, 12.0]), 'gzip': rng.random() < 0.5})
-        return {'sched': draw_sched_config(rng), 'world': cfg, 'writers': writers, 'ops': ops, 'subs': subs}
+        late = [{'delay': rng.choice([0.0, 0.001, 0.01, 0.05, 0.3])} for _ in range(rng.choice([0, 0, 1, 2, 3]))]
+        sched = draw_sched_config(rng)
+        if late and rng.random() < 0.7:
+            # a sender is descheduled while it selects the subscribers of a report
+            sched['line_hot'] = {'_get_subscriptions_for_action': [0.3, [0.001, 0.004, 0.02]],
+                                 'matches': [0.15, [0.001, 0.004, 0.02]]}
+        return {'sched': sched, 'world': cfg, 'writers': writers, 'ops': ops, 'subs': subs, 'late_subs': late,
+                'stall_periodic': rng.choice([0.0, 0.2, 0.5])}
 
     # ------------------------------------------------------------------
     def body(self, ctx):
@@ -113,9 +120,45 @@ class C04(CheckBase):
                         W.apply_op(w.mdib, op)
                     except W.OpRejected:
                         ctx.probe('rejected')
+                    except W.InjectedCrash:
+                        pass
+                    except Exception as ex:  # noqa: BLE001
+                        import traceback
+                        ctx.violation('C04.complete', f'commit-raised:{type(ex).__name__}',
+                                      f'the transaction of operation {op["id"]} raised out of the commit (its reports are not '
+                                      f'delivered completely):\n{traceback.format_exc()[-1500:]}')
                     if op.get('pause'):
                         s.sleep(op['pause'])
 
+        late_eps = []
+
+        def late_subscribers():
+            # further subscribers join while the writers are committing (the subscription table changes under the senders)
+            for j, ls in enumerate(plan.get('late_subs') or []):
+                s.sleep(ls['delay'])
+                i = len(plan['subs']) + j
+                ip = f'10.0.2.{j + 1}'
+                ep = peers.Endpoint(ip, f'late{j}')
+                cl = peers.RawClient(ip, paddr)
+                actions = [getattr(A, a).value for a in list(EPISODIC) + ['DescriptionModificationReport']]
+                body = peers.mk_subscribe(f'http://{paddr[0]}:{paddr[1]}{sub_path}', ep.url(f'/notify{i}'), actions,
+                                          expires=3600, msg_id=f'urn:uuid:latesub{i}')
+                try:
+                    r = peers.SoapResponse(cl.post(sub_path, body, {}))
+                    if r.status == 200 and not r.is_fault:
+                        late_eps.append((ep, set(actions)))
+                        ctx.probe('late_subscribers')
+                except OSError:
+                    pass
+
+        prh = getattr(w.provider, '_periodic_reports_handler', None)
+        if plan['world'].get('periodic') and prh is not None and plan.get('stall_periodic'):
+            # the periodic thread (or a writer) is descheduled right before it takes the lock of the periodic store
+            s.stall_before(prh._periodic_reports_lock, plan['stall_periodic'], (0.002, 0.02))
+        lt = None
+        if plan.get('late_subs'):
+            lt = threading.Thread(target=late_subscribers, name='late-subscribers')
+            lt.start()
         nw = plan['writers']
         if nw == 1:
             writer(0)
@@ -127,16 +170,18 @@ class C04(CheckBase):
                 t.start()
             for t in ths:
                 t.join()
+        if lt is not None:
+            lt.join()
         if plan['world'].get('periodic'):
             s.sleep(plan['world']['periodic'] * 2.5)
         w.settle(3.0)
         if s.escaped:
             ctx.violation('C04.complete', f'exception-in-library-thread:{s.escaped[0][1].split("(")[0]}', str(s.escaped[0])[:1500])
         with s.no_preempt():
-            self._judge(ctx, w, subs, A)
+            self._judge(ctx, w, subs, A, late_eps)
 
     # ------------------------------------------------------------------
-    def _judge(self, ctx, w, subs, A):
+    def _judge(self, ctx, w, subs, A, late_eps=()):
         hist = w.hist
         dm = w.mdib.data_model
         mt = dm.msg_types
@@ -154,7 +199,9 @@ class C04(CheckBase):
         dmr = A.DescriptionModificationReport.value
         seq = (w.mdib.sequence_id, w.mdib.instance_id)
         published = None
-        for ep, actions in subs:
+        first_seen = {}
+        late = {id(ep) for ep, _ in late_eps}
+        for ep, actions in list(subs) + list(late_eps):
             last_v = -1
             seen = {}  # (version, action) -> count
             for rec in ep.received:
@@ -182,11 +229,21 @@ class C04(CheckBase):
                     if published is None:
                         from checks.c06 import published_index
                         published = published_index([hist.hist])
+                        for vv in sorted(hist.hist):
+                            for kind_ in ('states', 'context'):
+                                for key_, c_ in hist.hist[vv][kind_].items():
+                                    first_seen.setdefault((kind_, key_, version_of(kind_, c_)), vv)
                     for part in report.ReportPart:
                         for st in part.values_list:
                             kind = 'context' if st.is_context_state else 'states'
                             key = st.Handle if st.is_context_state else st.DescriptorHandle
                             c = canon.canon(st)
+                            first = first_seen.get((kind, key, version_of(kind, c)))
+                            if first is not None and first > v:
+                                ctx.violation('C04.periodic', f'{kind}-newer-than-label',
+                                              f'{ep.name}: periodic report labelled MdibVersion {v} carries {kind} {key} with '
+                                              f'version counter {version_of(kind, c)}, which the provider created with commit '
+                                              f'{first}')
                             pub = published.get((kind, key, version_of(kind, c)))
                             if pub is None or not any(strip_versions(p) == strip_versions(c) for p in pub):
                                 d = canon.diff(strip_versions(pub[0]), strip_versions(c)) if pub else 'version never existed'
@@ -227,8 +284,9 @@ class C04(CheckBase):
                                                                          f'part with SourceMds={src} but belongs to {m}')
                 exp = res[epi[act]]
                 self._cmp_lists(ctx, ep, act, v, got, exp)
-            # exactly one report per category per commit in the filter
-            for v, res in hist.results.items():
+            # exactly one report per category per commit in the filter (a subscriber that joined in the middle cannot be
+            # judged for completeness, only for truth and order of what it received)
+            for v, res in ([] if id(ep) in late else hist.results.items()):
                 for act, lst in epi.items():
                     if act not in actions:
                         continue
